@@ -43,7 +43,7 @@ CLAIMED = {
             "Receiver without pubsub (nil host); every multi-case select is a priority select whose first-tried case is a scheduler decision (a non-default first case costs one unit of the bound, like a preemption); cooperative scheduling at synchronization operations only. A free-running `go test -race` pass over the same kinds of thread bodies (harness/subrace) runs after the shards: sampled, not the deciding step; it guards the assumption that all inter-thread communication goes through the scheduled operations, so `exhaustive` is false for the check as a whole (counter scheduled_part_exhaustive_at_bound).",
             "DESIGN.md 6/C16"),
     "C04": ("fault_enumeration", "F",
-            "fault enumeration over the real subscriber / sync client / publisher stack in a synctest bubble (virtual time): for each of 42 (quick) / 72 (thorough) modes {libp2p-HTTP discovery, plain HTTP} x {1,2 addresses} x {queried head, explicit head, announce-triggered} x {unsegmented, segments of 1, 2} x {fresh, partly synced}, every fault kind (5 HTTP statuses, connection closed, short body, corrupt / substituted / empty body, stalled response, caller cancellation during a request and from inside each block-hook call, hook failure) at every request / hook position of the fault-free run, singly (quick) and in pairs within an attempt and across attempt and retry (thorough), each followed by a fault-free retry on the same subscriber",
+            "fault enumeration over the real subscriber / sync client / publisher stack in a synctest bubble (virtual time): for each of 42 (quick) / 72 (thorough) modes {libp2p-HTTP discovery, plain HTTP} x {1,2 addresses} x {queried head, explicit head, announce-triggered} x {unsegmented, segments of 1, 2} x {fresh, partly synced}, every fault kind (5 HTTP statuses, connection closed, short body, corrupt / substituted / empty body, stalled response, caller cancellation during a request and from inside each block-hook call, hook failure) at every request / hook position of the fault-free run, singly, and in pairs within an attempt and across attempt and retry (reduced kind set quick, larger thorough), each followed by a fault-free retry on the same subscriber",
             "For every script the failed attempt must leave latest-synced unchanged, emit no success event, exactly one error event for announce-triggered syncs, a verifying store; the retry must succeed, end in the reference run's latest-synced value and stored set, re-request no verified block and report every block; masked faults must equal the reference run. Position-by-kind enumeration with a retry is what exposes sticky client fallback state that a single scripted missing block cannot.",
             "Request positions come from a fault-free reference run per mode (the two concurrent discovery requests of libp2phttp may arrive in either order); the stream-reset retry branch is not driven; 30 virtual minutes is the horizon for 'no event'.",
             "DESIGN.md 6/C04"),
